@@ -152,7 +152,7 @@ def main():
         ],
         "checks": [],
         "notes": "See DESIGN.md. Exit codes: 0 held on everything explored, 1 VIOLATION (natively replayed), 2 broken check / unconfirmed counterexample. "
-                 "known_findings.json lists genuine defects (none open) and the fix: commits made in /repo.",
+                 "known_findings.json lists the genuine defects found (one left open, C09, printed as KNOWN-FINDING) and the nine fix: commits made in /repo.",
         "not_applicable": [],
     }
     for pid in props:
